@@ -15,6 +15,7 @@ established the construct is left alone (and whatever consumes it later reports 
   <stmt using (x := E) first>              ->  x = E ; <stmt using x>         (the walrus is the first thing the statement evaluates)
   for ..: B  else: C                       ->  for ..: B ; C                  (loops without a break of their own)
   list(<generator>) / tuple(<list comp>)   ->  the comprehension display
+  t = reduce(lambda a, x: E, XS, init)     ->  t = init ; for x' in XS: t = E[a := t, x := x']      (statement level, plain init or plain XS)
 """
 from __future__ import annotations
 
@@ -347,10 +348,69 @@ class Desugar(ast.NodeTransformer):
         pre = _hoist_walrus(node)
         return (pre + [node]) if pre else node
 
-    visit_If = visit_Return = visit_Expr = visit_AugAssign = _stmt
+    visit_If = visit_Expr = visit_AugAssign = _stmt
+
+    @staticmethod
+    def _reduce_parts(call):
+        """(lambda, iterable, init) of `reduce(lambda a, x: E, XS, init)` in the rewritable form, else None"""
+        f = call.func
+        if not ((isinstance(f, ast.Name) and f.id == "reduce") or (isinstance(f, ast.Attribute) and f.attr == "reduce" and isinstance(f.value, ast.Name) and f.value.id == "functools")):
+            return None
+        if call.keywords or len(call.args) != 3 or not isinstance(call.args[0], ast.Lambda):
+            return None
+        lam, xs, init = call.args
+        a = lam.args
+        if len(a.args) != 2 or a.vararg or a.kwarg or a.kwonlyargs or a.defaults or a.posonlyargs:
+            return None
+        plain = lambda e: all(isinstance(x, (ast.Name, ast.Attribute, ast.Constant, ast.Subscript, ast.Load, ast.Tuple, ast.List, ast.BinOp, ast.UnaryOp, ast.operator,
+                                             ast.unaryop, ast.Slice)) for x in ast.walk(e))
+        simple_iter = plain(xs) or (isinstance(xs, ast.Call) and isinstance(xs.func, ast.Name) and xs.func.id in ("range", "zip", "enumerate", "reversed")
+                                    and all(plain(z) or (isinstance(z, ast.Call) and isinstance(z.func, ast.Name) and z.func.id in ("len", "range") and all(plain(q) or isinstance(q, ast.Call) and isinstance(q.func, ast.Name) and q.func.id == "len" for q in z.args)) for z in xs.args))
+        if not (plain(init) or simple_iter):
+            return None          # the order in which init and the iterable are evaluated must not matter
+        if any(isinstance(x, (ast.Lambda, ast.NamedExpr, ast.ListComp, ast.GeneratorExp, ast.SetComp, ast.DictComp)) for x in ast.walk(lam.body)):
+            return None
+        return lam, xs, init
+
+    def _reduce_loop(self, target_name, call, at):
+        parts = self._reduce_parts(call)
+        if parts is None:
+            return None
+        lam, xs, init = parts
+        acc, elem = lam.args.args[0].arg, lam.args.args[1].arg
+        loopvar = f"_ttsa_item_{at.lineno}_{at.col_offset}"
+        if any(isinstance(x, ast.Name) and x.id == target_name for x in ast.walk(lam.body)) and target_name != acc:
+            return None
+
+        class S(ast.NodeTransformer):
+            def visit_Name(s, n):
+                if n.id == acc:
+                    return ast.copy_location(_name(target_name, n.ctx), n)
+                if n.id == elem:
+                    return ast.copy_location(_name(loopvar, n.ctx), n)
+                return n
+        body = S().visit(copy.deepcopy(lam.body))
+        first = _loc(ast.Assign(targets=[_name(target_name, ast.Store())], value=init), at)
+        loop = _loc(ast.For(target=_name(loopvar, ast.Store()), iter=xs, body=[_loc(ast.Assign(targets=[_name(target_name, ast.Store())], value=body), at)], orelse=[],
+                            type_comment=None), at)
+        return [first, loop]
+
+    def visit_Return(self, node):
+        self.generic_visit(node)
+        if isinstance(node.value, ast.Call):
+            tmp = f"_ttsa_acc_{node.lineno}"
+            r = self._reduce_loop(tmp, node.value, node)
+            if r is not None:
+                return r + [_loc(ast.Return(value=_name(tmp)), node)]
+        pre = _hoist_walrus(node)
+        return (pre + [node]) if pre else node
 
     def visit_Assign(self, node):
         self.generic_visit(node)
+        if len(node.targets) == 1 and isinstance(node.targets[0], ast.Name) and isinstance(node.value, ast.Call):
+            r = self._reduce_loop(node.targets[0].id, node.value, node)
+            if r is not None:
+                return r
         if len(node.targets) == 1 and isinstance(node.targets[0], ast.Name) and isinstance(node.value, ast.Lambda):
             lam = node.value
             return _loc(ast.FunctionDef(name=node.targets[0].id, args=lam.args, body=[_loc(ast.Return(value=lam.body), lam)], decorator_list=[], returns=None,
